@@ -1,7 +1,8 @@
 (* C01/LemmasTop.v -- parse_sound assembled: validator + table containment +
    parse-loop invariant; the instance for a parser made by [build]. *)
 From Coq Require Import ZArith List Bool Lia.
-From AK Require Import LLP.Build C01.Basics C01.Spec C01.Run C01.Lemmas C01.LemmasFact C01.LemmasTable.
+From AK Require Import LLP.Build C01.Basics C01.Spec C01.Run C01.Lemmas C01.LemmasFact C01.LemmasTable
+  C01.FactProps C01.FactAll C01.FactSmart4.
 Import ListNotations.
 Local Open Scope nat_scope.
 
@@ -59,6 +60,7 @@ Lemma build_inv : forall ug terminals smart start p,
     p = mkParser start (terminals ++ [END_TOKEN]) g sfxs (make_tables g (terminals ++ [END_TOKEN]) start).
 Proof.
   intros ug terminals smart start p H. unfold build in H.
+  destruct (existsb has_dunder terminals || has_dunder start); [discriminate|].
   destruct (factorize ug terminals smart) as [[g sfxs]|] eqn:E; [|discriminate].
   cbn [bind] in H.
   destruct (rec_check g (terminals ++ [END_TOKEN]) (t_nulls (make_tables g (terminals ++ [END_TOKEN]) start))); [|discriminate].
@@ -106,4 +108,86 @@ Proof.
   intros ug terminals smart start p k body e t Hb Hh Hbody Hp.
   destruct (hyps_ok_parts _ _ _ Hh) as [H1 [H2 H3]].
   eapply parse_sound_build_l; eassumption.
+Qed.
+
+(* ---------------- no validator hypothesis: the factorization is proved correct ---------------- *)
+Theorem parse_sound_gen : forall ug fg sfxs is_term table body e k start t,
+  fact_ok ug fg sfxs = true ->
+  (forall nt tok r, In r (table nt tok) -> In r (grules fg nt)) ->
+  (forall s, mem s sfxs = true -> is_term s = false) ->
+  is_term END_TOKEN = true ->
+  mem start sfxs = false ->
+  (forall b, In b body -> tname b <> END_TOKEN) ->
+  parse is_term table sfxs (body ++ [e]) k start = Ok t ->
+  tree_name t = start /\ valid_tree ug t /\ no_helper sfxs t /\ kinds_ok is_term t /\
+  leaves t = map tok_pair body.
+Proof.
+  intros ug fg sfxs is_term table body e k start t Hok Htbl Hterm Hend Hstart Hb Hp.
+  pose proof (parse_result_ok ug fg sfxs is_term table (body ++ [e]) start
+                (fact_ok_sound ug fg sfxs Hok) (fact_ok_last ug fg sfxs Hok)
+                Hterm Hstart Hend Htbl k t Hp) as [H1 [[H2 [H3 H4]] [n [tk [Hn [He Hl]]]]]].
+  repeat split; try assumption. rewrite Hl. f_equal. eapply firstn_before_end; eassumption.
+Qed.
+
+Lemma factorize_sfxs_dunder : forall ug terminals smart g sfxs,
+  factorize ug terminals smart = Ok (g, sfxs) -> forall x, In x sfxs -> has_dunder x = true.
+Proof.
+  intros ug terminals smart g sfxs H x Hx.
+  destruct (factorize_inv _ _ _ _ _ H) as [Hd [g1 [ss [Hf [Hnd Heq]]]]].
+  pose proof (factorize_all_g1spec ug g1 ss Hd Hf Hnd) as Hspec.
+  apply (g1_dunder _ _ _ Hspec). destruct smart.
+  - unfold smart_pass in Heq.
+    destruct (fold_left _ (sort_by_len_desc (gkeys g1)) (g1, [])) as [g' rem] in Heq.
+    injection Heq as _ ->. now apply filter_In in Hx as [Hx _].
+  - now injection Heq as _ ->.
+Qed.
+
+Lemma build_inv_names : forall ug terminals smart start p,
+  build ug terminals smart start = Ok p ->
+  (forall t, In t terminals -> has_dunder t = false) /\ has_dunder start = false.
+Proof.
+  intros ug terminals smart start p H. unfold build in H.
+  destruct (existsb has_dunder terminals || has_dunder start) eqn:E; [discriminate|].
+  apply orb_false_iff in E as [E1 E2]. split; [|assumption].
+  intros t Ht. rewrite existsb_false in E1. now apply E1.
+Qed.
+
+Theorem parse_sound_constructor_l : forall ug terminals smart start p k body e t,
+  build ug terminals smart start = Ok p ->
+  (forall b, In b body -> tname b <> END_TOKEN) ->
+  p_parse p k (body ++ [e]) = Ok t ->
+  tree_name t = start /\ valid_tree ug t /\ no_helper (p_sfxs p) t /\
+  kinds_ok (fun s => mem s (p_terminals p)) t /\ leaves t = map tok_pair body.
+Proof.
+  intros ug terminals smart start p k body e t Hb Hbody Hp.
+  destruct (build_inv_names _ _ _ _ _ Hb) as [Hterm Hstart].
+  destruct (build_inv _ _ _ _ _ Hb) as [g [sfxs [Hf ->]]].
+  cbn [p_grammar p_sfxs p_terminals p_tables p_start] in *.
+  unfold p_parse in Hp. cbn [p_grammar p_sfxs p_terminals p_tables p_start] in Hp.
+  pose proof (factorize_sfxs_dunder _ _ _ _ _ Hf) as Hd.
+  eapply parse_sound_gen; try eassumption.
+  - eapply factorize_ok_l; eassumption.
+  - intros nt tok r Hr. eapply table_sub; eassumption.
+  - intros s Hs. apply mem_In in Hs. apply Hd in Hs. apply mem_not_In. intros Hin.
+    apply in_app_or in Hin as [Hin|[<-|[]]]; [apply Hterm in Hin; congruence|].
+    vm_compute in Hs. discriminate.
+  - rewrite mem_app. replace (mem END_TOKEN [END_TOKEN]) with true by (symmetry; apply mem_In; now left).
+    apply orb_true_r.
+  - apply mem_not_In. intros Hin. apply Hd in Hin. congruence.
+Qed.
+
+(* the check evaluated in the correspondence run is implied by the constructor's success *)
+Theorem build_hyps_ok_l : forall ug terminals smart start p,
+  build ug terminals smart start = Ok p -> In start (map fst ug) -> hyps_ok ug start p = true.
+Proof.
+  intros ug terminals smart start p Hb Hstart.
+  destruct (build_inv_names _ _ _ _ _ Hb) as [Hterm Hst].
+  destruct (build_inv _ _ _ _ _ Hb) as [g [sfxs [Hf ->]]].
+  unfold hyps_ok. cbn [p_grammar p_sfxs p_terminals].
+  apply andb_true_iff; split; [apply andb_true_iff; split|].
+  - eapply factorize_ok_l; eassumption.
+  - apply forallb_forall. intros s Hs. apply negb_true_iff. apply mem_not_In. intros Hin.
+    pose proof (factorize_sfxs_dunder _ _ _ _ _ Hf s Hs) as Hd.
+    apply in_app_or in Hin as [Hin|[<-|[]]]; [apply Hterm in Hin; congruence|]. vm_compute in Hd. discriminate.
+  - now apply mem_In.
 Qed.
